@@ -347,6 +347,10 @@ class SymT:
             return SymT([Node('atan2', (x, y)) for x, y in zip(SymT._lift(a, k), SymT._lift(b, k))])
         if name == 'grad':  # torch.autograd.grad
             return sym_grad(*args, **kwargs)
+        if name == 'unsqueeze':
+            return args[0].unsqueeze(kwargs.get('dim', args[1] if len(args) > 1 else None))
+        if name == 'squeeze':
+            return args[0].squeeze()
         if name in ('is_tensor',):
             return True
         raise Untranslatable(f'torch function {name} on a symbolic tensor')
